@@ -4,6 +4,7 @@ import (
 	"bytes"
 	"runtime"
 	"strconv"
+	"strings"
 	"time"
 
 	"github.com/robfig/soy/parse"
@@ -113,6 +114,40 @@ func genC18(g *G) {
 		default:
 			addExpr(src, "valid")
 		}
+	}
+	// errors in the MIDDLE of the input, followed by input that keeps the scanner busy (state functions that
+	// emit several items per call: text + EOF, literal blocks, header params, soydoc params, css)
+	tails := []string{" tail", " tail // why", "tail {$x} more", "{literal}x{/literal}", "\n/** @param x */", "{@param x: int}", "{css a-b}", "{sp}{nil}", " 1 @param x: int", "\n{/template}\n trailing text"}
+	errToks := []string{"{if}", "{$x +}", "{call}", "{/foo}", "}", "{'a", "{1 ! 2}", "{08}", "{$x | }", "{foreach $x}", "{let $y}"}
+	nmid := g.N(600, 12000)
+	for i := 0; i < nmid; i++ {
+		pre := []string{"", "{namespace a}\n", "{namespace a}\n{template .t}\n", "{namespace a}\n{template .t}\nhello {$x}\n", "\xef\xbb\xbf{namespace a}\n{template .t}\n", "\xef\xbb\xbf"}[g.R.Intn(6)]
+		mid := errToks[g.R.Intn(len(errToks))]
+		if g.R.Intn(3) == 0 {
+			mid = "" // no error at all: just unusual prefixes / tails
+		}
+		tail := tails[g.R.Intn(len(tails))]
+		if g.R.Bool() {
+			tail += tails[g.R.Intn(len(tails))]
+		}
+		addFile(pre+mid+tail, "error-then-busy-scanner")
+	}
+	// errors inside quoted attribute expressions (a nested parser with its own scanner), not at the last token
+	nq := g.N(600, 12000)
+	for i := 0; i < nq; i++ {
+		e := eg.expr(1+g.R.Intn(2), tAny)
+		bad := mutateSrc(g.R, e) + " " + eg.expr(1, tAny) + " " + eg.expr(1, tAny)
+		if g.R.Intn(4) == 0 {
+			bad = []string{"$a + * $b", "[1, 2 3]", "f(1 2) + 3 + 4", "1 ? 2 3 : 4", "$a[ 1 2 ] . b", "( 1 2 3 4"}[g.R.Intn(6)]
+		}
+		if strings.ContainsAny(bad, "\"\\\n}") {
+			continue
+		}
+		wrap := []string{"{call .u data=\"%s\"/}", "{call .u}{param k value=\"%s\"/}{/call}", "{css %s, cls}"}[g.R.Intn(3)]
+		addFile("{namespace a}\n{template .t}\n"+strings.Replace(wrap, "%s", bad, 1)+"\n{/template}\n{template .u}\nx\n{/template}\n", "quoted-expr-error")
+	}
+	for _, h := range []string{"1 @param x: int", "1 2 @param? y", "$a {literal}x{/literal}", "1 /* c */ 2 3", "'a' \n // c\n 'b' 'c'"} {
+		addExpr(h, "hand")
 	}
 	bg := newBundleGen(g.R, bundleOpts{msgs: true, directives: true, calls: true})
 	nf := g.N(300, 6000)
